@@ -261,7 +261,7 @@ func (b *Box) size() int {
 		n = 16
 	}
 	if b.Type == "uuid" {
-		n += 16
+		n += len(b.UUID) // 16; shorter (or none) for a uuid box that is too short to hold its usertype
 	}
 	if b.Full {
 		n += 4
